@@ -499,7 +499,24 @@ func TestVerif_C02_Authz(t *testing.T) {
 			"request4": func(rt *rapid.T) { request(rt) },
 		}
 		// rapid favours small draw values, so the slot table starts with the actions that should dominate
-		slots := []string{"request", "request", "request", "toggle-and-repeat", "request", "request", "token", "toggle-and-repeat", "policy", "request", "request", "revoke", "policy-delete", "token", "policy", "policy-write-fault", "entity-token", "entity-toggle", "request", "expire", "entity-toggle"}
+		restarts := 0
+		actions["restart"] = func(rt *rapid.T) {
+			// policies, tokens, entities and mounts are durable: after a restart every decision is what it was
+			if restarts >= 1 {
+				request(rt)
+				return
+			}
+			restarts++
+			w.tc.shutdown()
+			ntc, err := w.tc.restartOn(w.tc.phys)
+			if err != nil {
+				fail("restart-failed", fmt.Sprintf("core does not restart: %v", err))
+				return
+			}
+			w.tc, tc = ntc, ntc
+			w.logf("restart")
+		}
+		slots := []string{"request", "request", "request", "toggle-and-repeat", "request", "request", "token", "toggle-and-repeat", "policy", "request", "request", "revoke", "policy-delete", "token", "policy", "policy-write-fault", "entity-token", "entity-toggle", "request", "expire", "entity-toggle", "restart"}
 		rt.Repeat(map[string]func(*rapid.T){
 			"step": func(rt *rapid.T) {
 				a := slots[fairIndex(rt, "action", len(slots))]
